@@ -1782,6 +1782,9 @@ cmd_peek(void) {
     ev_int("delayq", dq);
     ev_int("sendq", sq);
     ev_int("state", s->state);
+    ev_int("doing_first", s->doing_first);
+    ev_int("lg_crcv", s->lg_crcv != NULL);
+    ev_int("lg_xmit", s->lg_xmit != NULL);
     ev_end();
   }
 }
